@@ -105,7 +105,13 @@ func (core *JApiCore) compileUserTypeWithAllDependencies(name string) error {
 
 	tt, err := fetchUsedUserTypes(currUT, core.userTypes)
 	if err != nil {
-		return jschemaToJAPIError(err, dd.GetValue(name))
+		// The error may belong to a referenced type: report it in that type's body.
+		culprit := name
+		var ute userTypeError
+		if errors.As(err, &ute) {
+			culprit = ute.name
+		}
+		return jschemaToJAPIError(err, dd.GetValue(culprit))
 	}
 
 	for _, n := range tt {
